@@ -1,2 +1,6 @@
 import ForsysModel.Driver.Common
 import ForsysModel.Driver.Core
+import ForsysModel.Driver.C19
+import ForsysModel.Driver.C17
+import ForsysModel.Driver.C18
+import ForsysModel.Driver.C14
